@@ -5,6 +5,8 @@
    (match <hex pattern> <hex context> <hex name>)
    (mocks <unlimited> <f> ((fn line ttl called trig) ...))        every queue function for function f
    (succ <unlimited> <f> (f1 f2 ...))
+   (decl <0 expect|1 always|2 never> <unlimited> <f> <line> (constraints) ((fn line ttl called trig (constraints)) ...))
+   (tally <unlimited> ((fn line ttl called trig (constraints)) ...))     constraint: (t n) | (r v) | (p name expected)
    (walk forked|inproc <tree>)   (walk-named <test id> <tree>)      tree in the syntax of the runner cases
    result: "<what> <code vector> | <model vector>" parts separated by " ; " *)
 open Model
@@ -19,6 +21,19 @@ let zs l = String.concat "," (List.map (fun z -> string_of_int (int_of_z z)) l)
 let zbytes_of_hex (h : string) : z list =
   if h = "-" then [] else List.init (String.length h / 2) (fun i -> z_of_int (int_of_string ("0x" ^ String.sub h (2 * i) 2)))
 let pair name c m = Printf.sprintf "%s %s | %s" name (zs c) (zs m)
+
+let con_of (e : sexp) : mcon = match lst e with
+  | [A "t"; A n] -> CTimes (z_of_string n)
+  | [A "r"; A v] -> CRet (z_of_string v)
+  | [A "p"; A p; A ex] -> CParam (nat_of_int (int_of_string p), z_of_string ex)
+  | _ -> failwith "constraint"
+let cons_of (s : sexp) : mcon list = List.map con_of (lst s)
+(* entries with their constraints: (fn line ttl called trig (constraints)) *)
+let queue_c (q : sexp) : mexp list = List.map (fun e -> match lst e with
+  | [A fn; A line; A ttl; A called; A trig; cs] ->
+      { efn = nat_of_int (int_of_string fn); eline = nat_of_int (int_of_string line); ettl = z_of_string ttl;
+        econs = cons_of cs; encalled = z_of_string called; entrig = z_of_string trig }
+  | _ -> failwith "entry with constraints") (lst q)
 
 let code_case (s : sexp) : string =
   match lst s with
@@ -54,6 +69,13 @@ let code_case (s : sexp) : string =
   | A "succ" :: A unl :: A f :: l :: [] ->
       let l = List.map (fun a -> nat_of_int (int_of_string (atom a))) (lst l) in
       pair "succ" (code_succ (z_of_string unl) l (nat_of_int (int_of_string f))) (model_succ (z_of_string unl) l (nat_of_int (int_of_string f)))
+  | A "decl" :: A kind :: A unl :: A f :: A line :: cs :: q :: [] ->
+      let k = nat_of_int (int_of_string kind) and unl = z_of_string unl and f = nat_of_int (int_of_string f)
+      and line = nat_of_int (int_of_string line) in
+      pair "declare" (code_declare k unl (queue_c q) f line (cons_of cs)) (model_declare k unl (queue_c q) f line (cons_of cs))
+  | A "tally" :: A unl :: q :: [] ->
+      let unl = z_of_string unl in
+      pair "tally" (code_tally unl (queue_c q)) (model_tally unl (queue_c q))
   | A "walk" :: A mode :: tree :: [] ->
       let n = H_runner.node_of tree in
       (match mode with
